@@ -167,6 +167,24 @@ theorem emitAddR_same {m m' : Mem} {hh : Nat} {o : Val} {md : Option Int} {cs : 
           cases h
           exact (addOther_same h1).trans (releaseOpt_same h2)
 
+theorem emitEprH_same : ∀ (evs : List EprEv) (m : Mem) (held : List Nat) (m' : Mem) (held' : List Nat),
+    emitEprH m held evs = .ok (m', held') → SameBut m m'
+  | [], m, held, m', held', h => by simp [emitEprH] at h; rw [← h.1]; exact SameBut.refl _
+  | .take :: es, m, held, m', held', h => by
+    simp only [emitEprH] at h
+    split at h
+    · cases h
+    · rename_i m1 i h1
+      exact (takeReg_same h1).trans (emitEprH_same es _ _ _ _ h)
+  | .rel p :: es, m, held, m', held', h => by
+    simp only [emitEprH] at h
+    split at h
+    · cases h
+    · split at h
+      · cases h
+      · rename_i m1 h1
+        exact (release_same h1).trans (emitEprH_same es _ _ _ _ h)
+
 /-- everything but the register flags and the label counters is unchanged -/
 structure SameButL (m m' : Mem) : Prop where
   meas : m'.measUsed = m.measUsed
@@ -263,6 +281,7 @@ def BodyOK : Host → Prop
   | .foreach _ _ body => BodyOK body
   | .loopUntil _ body _ _ cl => BodyOK body ∧ BodyOK cl
   | .tryUntil _ body => BodyOK body
+  | .epr _ => False
 
 theorem BodyOK.completed : ∀ {op : Host}, BodyOK op → Completed op
   | .skip, _ => trivial
@@ -278,6 +297,7 @@ theorem BodyOK.completed : ∀ {op : Host}, BodyOK op → Completed op
   | .foreach _ _ body, h => BodyOK.completed (op := body) h
   | .loopUntil _ body _ _ cl, h => ⟨BodyOK.completed h.1, BodyOK.completed h.2⟩
   | .tryUntil _ body, h => BodyOK.completed (op := body) h
+  | .epr _, h => h.elim
 
 /-- static effect of building `op` from `m` -/
 structure Stat (m m' : Mem) (op : Host) (cs : List PCmd) : Prop where
@@ -620,6 +640,14 @@ theorem emit_stat : ∀ (op : Host) (m m' : Mem) (cs : List PCmd),
     simp only [emit] at h
     have sb := ih _ _ _ h
     exact ⟨sb.handles, sb.lens, sb.aret, by rw [sb.empty]; simp [emits], sb.body⟩
+  | epr evs =>
+    intro m m' cs h
+    simp only [emit] at h
+    split at h
+    · cases h
+    · rename_i m1 held' h1
+      cases h
+      exact Stat.of_same (emitEprH_same _ _ _ _ _ h1).toL rfl rfl (fun _ => rfl) (by simp [emits])
 
 
 end NQ.Sdk
